@@ -226,6 +226,135 @@ def gen_mapping(rng):
     return {"kind": "mapping", "style": kind, "adds": adds, "queries": queries}
 
 
+def gen_tagseq(rng):
+    """Operation SEQUENCES on two live TaggedProductList objects A and B: addProduct / deleteProduct / mergeProductList /
+    getProducts (also sort=True, which sorts in place) / getProductInfo / write A and read it back - into a fresh list or
+    into the live list B ("any previously registered products may get updated")."""
+    names = sorted(set(n for n in (gen_name(rng) for _ in range(rng.randint(2, 6))) if is_word(n) and not n.startswith("#"))) or ["afw"]
+    fa, fb = rng.choice([None, "Linux", "Linux64", "generic"]), rng.choice([None, "Linux", "Linux", "Linux64"])
+
+    def add(on):
+        return {"op": "add", "on": on, "product": rng.choice(names), "version": gen_version(rng),
+                "flavor": rng.choice([None, None, "Linux", "Linux64", "generic"]),
+                "extra": [gen_word(rng)] if rng.random() < 0.15 else []}
+    ops = [add("A") for _ in range(rng.randint(1, 4))] + [add("B") for _ in range(rng.randint(0, 3))]
+    for _ in range(rng.randint(2, 7)):
+        r = rng.random()
+        if r < 0.25:
+            ops.append(add(rng.choice("AAB")))
+        elif r < 0.35:
+            ops.append({"op": "delete", "on": rng.choice("AB"), "product": rng.choice(names)})
+            if rng.random() < 0.7:
+                ops.append({"op": "info", "on": ops[-1]["on"], "product": ops[-1]["product"]})
+        elif r < 0.55:
+            ops.append({"op": "merge", "on": "A"})
+        elif r < 0.70:
+            ops.append({"op": "get", "on": rng.choice("AB"), "sort": rng.random() < 0.4})
+        elif r < 0.80:
+            ops.append({"op": "info", "on": rng.choice("AB"), "product": rng.choice(names + ["absent"])})
+        else:
+            ops.append({"op": "roundtrip", "on": "A", "writeFlavor": rng.choice([None, None, "Linux", "generic"]),
+                        "readFlavor": rng.choice([fa, fa, "Linux", "Linux64", None]), "into": rng.choice(["fresh", "B", "B"])})
+    ops.append({"op": "get", "on": "A", "sort": False})
+    ops.append({"op": "get", "on": "B", "sort": False})
+    tag = rng.choice(["current", "stable", "v1.0", "c++"])
+    return {"kind": "tagseq", "tag": tag, "flavorA": fa, "flavorB": fb, "ops": ops}
+
+
+def impl_tagseq(c):
+    from eups.distrib import server
+    E = _eups()
+    path = os.path.join(E._c18root, "seq.list")
+    null = open(os.devnull, "w")
+    t = {"A": server.TaggedProductList(c["tag"], c["flavorA"], log=null), "B": server.TaggedProductList(c["tag"], c["flavorB"], log=null)}
+    out = []
+    for o in c["ops"]:
+        k = o["op"]
+        x = t[o["on"]]
+        try:
+            if k == "add":
+                x.addProduct(o["product"], o["version"], o["flavor"], list(o["extra"]) if o["extra"] else None)
+                out.append(None)
+            elif k == "delete":
+                x.deleteProduct(o["product"])
+                out.append(None)
+            elif k == "merge":
+                before = t["A"].getProducts()
+                t["A"].mergeProductList(t["B"])
+                out.append({"before": before, "other": t["B"].getProducts(), "after": t["A"].getProducts()})
+            elif k == "get":
+                out.append(x.getProducts(sort=True) if o["sort"] else x.getProducts())
+            elif k == "info":
+                out.append({"info": list(x.getProductInfo(o["product"])), "rows": x.getProducts()})
+            else:
+                written = t["A"].getProducts()
+                t["A"].write(path, o["writeFlavor"])
+                before = t["B"].getProducts()
+                r = t["B"] if o["into"] == "B" else server.TaggedProductList(c["tag"], o["readFlavor"], log=null)
+                try:
+                    r.read(path)
+                    out.append({"written": written, "before": before, "read": r.getProducts()})
+                except Exception as e:  # noqa
+                    out.append({"written": written, "error": exc_name(e)})
+        except Exception as e:  # noqa
+            out.append({"exception": type(e).__name__})
+            break
+    return {"out": [[list(r) for r in x] if isinstance(x, list) and x and isinstance(x[0], list) else x for x in out]}
+
+
+def oracle_tagseq(c, io_):
+    """From the implementation's own observables, step by step: a merge leaves every row of the other list in this one and
+    keeps the rows of products the other list does not hold; a list written and read back is the flavor filter of what was
+    written (sorted), and reading into a live list updates it without dropping what it held."""
+    fl = {"A": c["flavorA"] or "generic", "B": c["flavorB"] or "generic"}
+    for o, r in zip(c["ops"], io_["out"]):
+        if isinstance(r, dict) and "exception" in r:
+            yield ("taglist_sequence_runs", None, "%s raised %s" % (o["op"], r["exception"]))
+            return
+        if o["op"] == "info":
+            # what the list says about one product is its row in the listing; nothing for a product that is not listed
+            row = [x for x in r["rows"] if x[0] == o["product"]]
+            want = row[0][1:] if row else [None, None]
+            if r["info"] != want:
+                yield ("taglist_info_matches_the_listing", None, "getProductInfo(%r) = %r, the listing says %r" % (o["product"], r["info"], want))
+        elif o["op"] == "merge":
+            other = {x[0]: x for x in r["other"]}
+            after = {x[0]: x for x in r["after"]}
+            for p, row in other.items():
+                if after.get(p) != row:
+                    yield ("taglist_merge_takes_the_other_lists_entries", None, "row %r of the merged list became %r" % (row, after.get(p)))
+            for row in r["before"]:
+                if row[0] not in other and row not in r["after"]:
+                    yield ("taglist_merge_takes_the_other_lists_entries", None, "row %r was lost by the merge" % (row,))
+        elif o["op"] == "roundtrip":
+            if "error" in r:
+                yield ("taglist_reads_back", None, "reading the written list raised: %s" % r["error"])
+                continue
+            reader = fl["B"] if o["into"] == "B" else (o["readFlavor"] or "generic")
+            exp = []
+            for row in sorted(r["written"]):
+                f = o["writeFlavor"] if o["writeFlavor"] is not None else row[1]
+                if f == "generic":
+                    f = reader
+                if f == reader:
+                    exp.append([row[0], f] + row[2:])
+            got = {x[0]: x for x in r["read"]}
+            for row in exp:
+                if got.get(row[0]) != row:
+                    yield ("taglist_same_entries", None, "written %r read back as %r (reader %s)" % (row, got.get(row[0]), reader))
+            if o["into"] == "fresh":
+                if [x[0] for x in r["read"]] != [x[0] for x in exp]:
+                    yield ("taglist_same_entries", None, "read back %r, expected %r" % ([x[0] for x in r["read"]], [x[0] for x in exp]))
+            else:
+                names = [x[0] for x in exp]
+                for row in r["before"]:
+                    if row[0] not in names and row not in r["read"]:
+                        yield ("taglist_read_into_live_list_keeps_its_entries", None, "row %r of the live list was lost" % (row,))
+                if [x[0] for x in r["read"]][:len(r["before"])] != [x[0] for x in r["before"]]:
+                    yield ("taglist_read_into_live_list_keeps_its_entries", None, "positions changed: %r -> %r" %
+                           ([x[0] for x in r["before"]], [x[0] for x in r["read"]]))
+
+
 def gen_mapseq(rng):
     """Operation SEQUENCES on one live Mapping object: add / merge (what remapEntries(mapping=M) does with the rules of
     manifest.remap) / inverse / apply interleaved - inverse() is taken, rules are merged in, inverse() is taken again.
@@ -692,7 +821,7 @@ def impl_remap(c, E=None):
 
 
 def impl_case(c):
-    return {"manifest": impl_manifest, "taglist": impl_taglist, "mapping": impl_mapping, "mapseq": impl_mapseq, "remap": impl_remap,
+    return {"manifest": impl_manifest, "taglist": impl_taglist, "mapping": impl_mapping, "mapseq": impl_mapseq, "tagseq": impl_tagseq, "remap": impl_remap,
             "server": impl_server}[c["kind"]](c)
 
 
@@ -966,7 +1095,7 @@ def oracle_server(c, io_):
 
 
 ORACLES = {"manifest": oracle_manifest, "taglist": oracle_taglist, "mapping": oracle_mapping, "remap": oracle_remap,
-           "server": oracle_server, "mapseq": oracle_mapseq}
+           "server": oracle_server, "mapseq": oracle_mapseq, "tagseq": oracle_tagseq}
 
 
 # ---- model -----------------------------------------------------------------------------------------
@@ -991,6 +1120,8 @@ def model_requests(c, io_):
         return [{"m": "c18", "op": "mapping", "adds": c["adds"], "queries": c["queries"]}]
     if k == "mapseq":
         return [{"m": "c18", "op": "mapseq", "ops": c["ops"]}]
+    if k == "tagseq":
+        return [{"m": "c18", "op": "tagseq", "tag": c["tag"], "flavorA": c["flavorA"], "flavorB": c["flavorB"], "ops": c["ops"]}]
     if k == "remap":
         return [{"m": "c18", "op": "remap", "adds": c["adds"], "files": c["files"], "mode": c["mode"], "flavor": NATIVE,
                  "deps": c["deps"], "pinned": False, "known": c.get("known", [])}]
@@ -1011,7 +1142,7 @@ def model_output(c, io_, answers):
         if len(answers) > 1:
             out["read"] = answers[1]
         return out
-    if k in ("mapping", "mapseq"):
+    if k in ("mapping", "mapseq", "tagseq"):
         return answers[0]
     if k == "server":
         return {"answers": answers[0]["answers"]}
@@ -1054,6 +1185,8 @@ def nontrivial(c, io_):
         return False
     if k == "mapping":
         return any(list(r) != q[:2] for q, r in zip(c["queries"], io_.get("applied", [])))
+    if k == "tagseq":
+        return any(isinstance(r, dict) and (r.get("other") or r.get("read")) for r in io_.get("out", []))
     if k == "mapseq":
         return any(isinstance(r, dict) and isinstance(r.get("inverse"), dict) and r["inverse"]["checks"] for r in io_.get("out", []))
     return "deps" in io_ and io_["deps"] != c["deps"]
@@ -1092,6 +1225,12 @@ def evaluate(ctx, cases):
                 ctx.hist("taglist:odd-tag")
             if "readTag" in c:
                 ctx.hist("taglist:reader-expects-another-tag")
+        elif kind == "tagseq":
+            for o, r in zip(c["ops"], io_["out"]):
+                if o["op"] == "merge" and r["other"]:
+                    ctx.hist("tagseq:merge-of-a-non-empty-list")
+                if o["op"] == "roundtrip" and o["into"] == "B" and isinstance(r, dict) and r.get("before") and r.get("read") != r.get("before"):
+                    ctx.hist("tagseq:read-into-a-live-list-changes-it")
         elif kind == "mapseq":
             ctx.hist("mapseq:%s" % c["style"])
             invs = [r for o, r in zip(c["ops"], io_["out"]) if o["op"] == "inverse"]
@@ -1150,7 +1289,7 @@ def corpus_cases():
 
 
 GEN = {"manifest": gen_manifest, "taglist": gen_taglist, "mapping": gen_mapping, "remap": gen_remap, "server": gen_server,
-       "mapseq": gen_mapseq}
+       "mapseq": gen_mapseq, "tagseq": gen_tagseq}
 
 
 def enum_mappings():
@@ -1170,9 +1309,9 @@ def enum_mappings():
     return out
 
 
-QUICK = [("manifest", 2400, 600), ("taglist", 1200, 400), ("mapping", 1500, 500), ("mapseq", 1200, 400), ("remap", 1600, 400),
+QUICK = [("manifest", 2400, 600), ("taglist", 1200, 400), ("mapping", 1500, 500), ("mapseq", 1200, 400), ("tagseq", 1000, 500), ("remap", 1600, 400),
          ("server", 1000, 500)]
-THOROUGH = [("manifest", 60000, 600), ("taglist", 30000, 600), ("mapping", 40000, 600), ("mapseq", 30000, 600),
+THOROUGH = [("manifest", 60000, 600), ("taglist", 30000, 600), ("mapping", 40000, 600), ("mapseq", 30000, 600), ("tagseq", 30000, 600),
             ("remap", 40000, 600), ("server", 25000, 600)]
 
 
@@ -1198,6 +1337,10 @@ def check_floors(ctx):
     if h.get("mapseq:inverse-again-after-merge", 0) < 100:
         raise common.InfraError("degenerate distribution: inverse() taken, rules merged in, inverse() taken again with entries "
                                 "to undo: %d sequences" % h.get("mapseq:inverse-again-after-merge", 0))
+    if h.get("tagseq:merge-of-a-non-empty-list", 0) < 100 or h.get("tagseq:read-into-a-live-list-changes-it", 0) < 50:
+        raise common.InfraError("degenerate distribution: tag-list sequences: %d merges of a non-empty list, %d reads into a live list "
+                                "that change it" % (h.get("tagseq:merge-of-a-non-empty-list", 0),
+                                                    h.get("tagseq:read-into-a-live-list-changes-it", 0)))
     if h.get("remap:after-an-earlier-call-without-mapping-argument", 0) < 60:
         raise common.InfraError("degenerate distribution: %d remap cases preceded by an earlier call without a mapping argument"
                                 % h.get("remap:after-an-earlier-call-without-mapping-argument", 0))
